@@ -41,15 +41,19 @@ from ..paths import UNKNOWN
 from ..selftest import Mutant
 from ._helpers_A import ASpec
 from ._helpers_A import compare_pair
+from ._helpers_A import dataclass_fields
 from ._helpers_A import is_self_call
+from ._helpers_A import isinstance_names
 from ._helpers_A import isinstance_of
 from ._helpers_A import loops_over
 from ._helpers_A import method_call_on
+from ._helpers_A import method_on
 from ._helpers_A import params_of
 from ._helpers_A import proj
 from ._helpers_A import run_block
 from ._helpers_A import show
 from ._helpers_A import truthiness_atom
+from ._helpers_A import truthiness_of
 
 PROP = "C04"
 REG = {
@@ -82,6 +86,258 @@ def _is_gen(v):
     return isinstance(v, tuple) and len(v) == 2 and v[0] == "gen"
 
 
+def _is_rec(v):
+    return isinstance(v, tuple) and len(v) == 2 and v[0] == "rec"
+
+
+def _own_nodes(fn):
+    """All nodes of ``fn`` except those inside nested function / class definitions."""
+    stack = list(ast.iter_child_nodes(fn))
+    while stack:
+        n = stack.pop()
+        yield n
+        if not isinstance(n, (ast.FunctionDef, ast.AsyncFunctionDef, ast.ClassDef, ast.Lambda)):
+            stack.extend(ast.iter_child_nodes(n))
+
+
+def _self_attr(expr) -> str:
+    """'x' for ``self.x``."""
+    if isinstance(expr, ast.Attribute) and isinstance(expr.value, ast.Name) and expr.value.id == "self":
+        return expr.attr
+    return ""
+
+
+def _self_callee(call) -> str:
+    """'m' for ``self.m(...)``."""
+    return _self_attr(call.func) if isinstance(call, ast.Call) else ""
+
+
+def _assign_pairs(node):
+    """(target, value) pairs of an assignment statement, tuple targets flattened (their value is None = not modelled)."""
+    if isinstance(node, ast.Assign):
+        out = []
+        for t in node.targets:
+            if isinstance(t, (ast.Tuple, ast.List)):
+                out.extend((e, None) for e in ast.walk(t) if isinstance(e, (ast.Attribute, ast.Name, ast.Subscript)) and isinstance(e.ctx, ast.Store))
+            else:
+                out.append((t, node.value))
+        return out
+    if isinstance(node, ast.AnnAssign) and node.value is not None:
+        return [(node.target, node.value)]
+    if isinstance(node, ast.AugAssign):
+        return [(node.target, None)]
+    return []
+
+
+class LSpec(ASpec):
+    """ASpec + (a) the statement-level (assignment) labels of ``target = a if c else b``: the path engine evaluates such an assignment branch by
+    branch through ``bind`` without asking for the labels of the statement, so they are produced here from a synthetic ``target = a`` (marked
+    ``_assign_only``: the label functions skip its sub-expressions, which the engine has labelled already); (b) objects of the abstract
+    domain are known not to be None."""
+
+    def bind(self, target, value_expr, st, depth, value=None):
+        p = getattr(value_expr, "_parent", None) if value_expr is not None else None
+        pp = getattr(p, "_parent", None)
+        if value is None and isinstance(p, ast.IfExp) and (value_expr is p.body or value_expr is p.orelse) and isinstance(pp, ast.Assign) and len(pp.targets) == 1 and pp.targets[0] is target and self._label:
+            synth = ast.Assign(targets=[target], value=value_expr)
+            ast.copy_location(synth, pp)
+            synth._assign_only = True
+            st = st.emit(*self._label(synth, st, self))
+        return ASpec.bind(self, target, value_expr, st, depth, value)
+
+    def decide_extra(self, cond, st, depth):
+        cp = compare_pair(cond, (ast.Is, ast.IsNot, ast.Eq, ast.NotEq))
+        if cp:
+            a, b = self.value(cp[0], st, depth), self.value(cp[1], st, depth)
+            if a == C(None):
+                a, b = b, a
+            if b == C(None) and isinstance(a, tuple) and a and a[0] in ("cmd", "gen", "param", "deq", "recv", "self"):
+                return isinstance(cp[2], (ast.IsNot, ast.NotEq))
+        return None
+
+
+def _sub_exprs(node):
+    """Sub-expressions to label, in evaluation order (none for the synthetic assignments of LSpec.bind)."""
+    return () if getattr(node, "_assign_only", False) else eval_order(node)
+
+
+def _syntactic_advance(call, names):
+    """name of the generator variable if ``call`` is ``<name>.send(x)`` / ``next(<name>)`` with name in ``names``."""
+    if not isinstance(call, ast.Call):
+        return None
+    f = call.func
+    if isinstance(f, ast.Attribute) and f.attr == "send" and isinstance(f.value, ast.Name) and f.value.id in names:
+        return f.value.id
+    if isinstance(f, ast.Name) and f.id == "next" and len(call.args) == 1 and isinstance(call.args[0], ast.Name) and call.args[0].id in names:
+        return call.args[0].id
+    return None
+
+
+class _Roles:
+    """Who is who in class Layer, found by ROLE (what the code does), not by the private names:
+    paused  - the attribute initialised to None in __init__ that is elsewhere assigned a record (class of the module) construction
+    queue   - the attribute initialised with a deque() in __init__
+    record  - the record class with a command field and a generator field
+    pump    - the method (not handle_event) that advances a generator it receives as a parameter (``p.send(x)`` / ``next(p)``)
+    helpers - every other method touching that state (transitively): inlined at its call sites, so its name and extent do not matter
+    """
+
+
+def _layer_roles(ctx):
+    m = ctx.model
+    mod = m.module(F)
+    cls = m.cls(F, "Layer")
+    r = _Roles()
+    r.methods = {st.name: st for st in cls.body if isinstance(st, (ast.FunctionDef, ast.AsyncFunctionDef))}
+    init = ctx.func(F, "Layer.__init__")
+    ctx.require("_handle_event" in r.methods, "Layer._handle_event (the hook concrete layers implement) vanished")
+    deques, nones = [], []
+    for n in _own_nodes(init):
+        for t, v in _assign_pairs(n):
+            a = _self_attr(t)
+            if not a or v is None:
+                continue
+            if isinstance(v, ast.Call) and last_attr(v.func) == "deque":
+                deques.append(a)
+            elif isinstance(v, ast.Constant) and v.value is None:
+                nones.append(a)
+    ctx.require(len(set(deques)) == 1, f"Layer.__init__: expected exactly one attribute initialised with a deque (the paused-event queue), found {sorted(set(deques))}")
+    r.queue_attr = deques[0]
+    cands = {}
+    for name, fn in r.methods.items():
+        if name == "__init__":
+            continue
+        for n in _own_nodes(fn):
+            for t, v in _assign_pairs(n):
+                a = _self_attr(t)
+                if a in nones and isinstance(v, ast.Call):
+                    d = m.resolve_name(mod, v.func)
+                    if d is not None and isinstance(d[1], ast.ClassDef) and d[0] is mod:
+                        cands.setdefault(a, {})[d[1].name] = d[1]
+    if not cands and "_paused" in nones and isinstance(mod.get("Paused"), ast.ClassDef):
+        cands = {"_paused": {"Paused": mod.get("Paused")}}  # record built into a temporary first: fall back to the documented names
+    ctx.require(len(cands) == 1 and len(next(iter(cands.values()))) == 1,
+                f"Layer: expected exactly one attribute that is None in __init__ and later assigned a pause record, found {sorted(cands)}")
+    r.paused_attr = next(iter(cands))
+    r.rec_cls = next(iter(cands[r.paused_attr].values()))
+    r.PAUSED = "self." + r.paused_attr
+    r.QUEUE = "self." + r.queue_attr
+    ann = {st.target.id: ast.unparse(st.annotation) for st in r.rec_cls.body if isinstance(st, ast.AnnAssign) and isinstance(st.target, ast.Name)}
+    r.rec_fields = dataclass_fields(r.rec_cls)
+    gens = [f for f in r.rec_fields if "Generator" in ann[f]]
+    cmds = [f for f in r.rec_fields if "Command" in ann[f] and "Generator" not in ann[f]]
+    if len(gens) != 1 or len(cmds) != 1:
+        gens = [f for f in r.rec_fields if f == "generator"]
+        cmds = [f for f in r.rec_fields if f == "command"]
+    ctx.require(len(r.rec_fields) == 2 and len(gens) == 1 and len(cmds) == 1,
+                f"{r.rec_cls.name}: expected a record of (command, generator), found fields {r.rec_fields}")
+    r.gen_field, r.cmd_field = gens[0], cmds[0]
+
+    # pump: advances a generator parameter (itself, or by handing it on to a helper that does)
+    dmemo = {}
+
+    def drives(name):
+        """own parameters of method ``name`` that are advanced as generators"""
+        if name in dmemo:
+            return dmemo[name]
+        dmemo[name] = set()
+        fn = r.methods[name]
+        ps = params_of(fn)
+        hit = set()
+        for n in _own_nodes(fn):
+            g = _syntactic_advance(n, ps)
+            if g:
+                hit.add(g)
+            c = _self_callee(n) if isinstance(n, ast.Call) else ""
+            if c and c in r.methods and c != name and c not in ("handle_event", "__init__", "_handle_event"):
+                cps = params_of(r.methods[c])
+                passed = {cps[i]: a for i, a in enumerate(n.args) if i < len(cps)}
+                passed.update({k.arg: k.value for k in n.keywords if k.arg})
+                for cp_, a in passed.items():
+                    if cp_ in drives(c) and isinstance(a, ast.Name) and a.id in ps:
+                        hit.add(a.id)
+        dmemo[name] = hit
+        return hit
+
+    adv = {}
+    for name in r.methods:
+        if name in ("handle_event", "__init__", "_handle_event"):
+            continue
+        if drives(name):
+            adv[name] = drives(name)
+    outer = {n for n in adv if not any(o != n and any(_self_callee(c) == n for c in _own_nodes(r.methods[o])) for o in adv)}
+    ctx.require(len(outer) == 1, f"Layer: expected exactly one method that drives a command generator handed to it (the command pump), found {sorted(outer) or sorted(adv)}"
+                " (shape not modelled)")
+    r.pump_name = next(iter(outer))
+    r.pump = r.methods[r.pump_name]
+    r.pump_params = params_of(r.pump)
+    ctx.require(len(r.pump_params) == 2 and len(adv[r.pump_name]) == 1, f"Layer.{r.pump_name} no longer has the (command_generator, send) signature")
+    r.gen_param = next(iter(adv[r.pump_name]))
+    r.send_param = [p for p in r.pump_params if p != r.gen_param][0]
+    ctx.functions.add(f"{F}::Layer.{r.pump_name}")
+
+    # relevance (transitive): does a method touch the alphabet of the rules?
+    memo = {}
+
+    def relevant(name):
+        if name in memo:
+            return memo[name]
+        memo[name] = False  # cycles
+        fn = r.methods[name]
+        ps = set(params_of(fn))
+        res = False
+        for n in _own_nodes(fn):
+            if isinstance(n, ast.Attribute) and (_self_attr(n) in (r.paused_attr, r.queue_attr) or n.attr == "blocking"):
+                res = True
+            elif isinstance(n, ast.Call):
+                c = _self_callee(n)
+                if _syntactic_advance(n, ps) or c in (r.pump_name, "_handle_event") or (c in r.methods and c != name and relevant(c)):
+                    res = True
+            if res:
+                break
+        memo[name] = res
+        return res
+
+    r.opaque = {r.pump_name, "_handle_event", "handle_event", "__init__"}
+    r.relevant = relevant
+
+    def resolver(call):
+        c = _self_callee(call)
+        if c and c in r.methods and c not in r.opaque and relevant(c):
+            for a in list(call.args) + [k.value for k in call.keywords]:
+                if any(isinstance(x, (ast.Call, ast.Yield, ast.YieldFrom, ast.Await, ast.NamedExpr)) for x in ast.walk(a)):
+                    raise AnalysisError(f"{norm(call)}: helper argument with a call / yield inside (effects of arguments of inlined helpers are not modelled)")
+            return r.methods[c]
+        return None
+
+    r.resolver = resolver
+
+    def may_stop(name, seen=()):
+        """May calling self.<name>() let a StopIteration of a generator advance escape?"""
+        if name in seen or name not in r.methods or name in r.opaque:
+            return False
+        fn = r.methods[name]
+        ps = set(params_of(fn))
+        for n in _own_nodes(fn):
+            if isinstance(n, ast.Call) and (_syntactic_advance(n, ps) or may_stop(_self_callee(n), seen + (name,))):
+                p = getattr(n, "_parent", None)
+                prev = n
+                caught = False
+                while p is not None and p is not fn:
+                    if isinstance(p, ast.Try) and prev in p.body and any(h.type is None or last_attr(h.type) in ("StopIteration", "Exception", "BaseException") or
+                                                                           (isinstance(h.type, ast.Tuple) and any(last_attr(e) in ("StopIteration", "Exception", "BaseException") for e in h.type.elts))
+                                                                           for h in p.handlers):
+                        caught = True
+                        break
+                    prev, p = p, getattr(p, "_parent", None)
+                if not caught:
+                    return True
+        return False
+
+    r.may_stop = may_stop
+    return r
+
+
 def _advance(call, st, sp):
     """(gen_value, send_value) if ``call`` advances a tracked generator: G.send(x) | next(G)."""
     if not isinstance(call, ast.Call):
@@ -94,55 +350,142 @@ def _advance(call, st, sp):
     return None
 
 
+def _n_setb(trace):
+    """Epoch of ``<command>.blocking``: it changes when the layer claims the command and when the next command is obtained."""
+    return sum(1 for t in trace if t[0] in ("setb", "adv"))
+
+
 def _blocking_atom(expr, st, sp):
-    """Leaf forms over ``<command>.blocking``."""
+    """Leaf forms over ``<command>.blocking`` (read directly or through a local that still holds the current value)."""
 
     def is_blocking(e):
-        return isinstance(e, ast.Attribute) and e.attr == "blocking" and sp.v(e.value, st) == CMD
+        if isinstance(e, ast.Attribute) and e.attr == "blocking" and sp.v(e.value, st) == CMD:
+            return True
+        return isinstance(e, ast.Name) and sp.v(e, st) == ("blk", _n_setb(st.trace))
+
+    def mentions(e):
+        if isinstance(e, ast.Attribute) and e.attr == "blocking" and sp.v(e.value, st) == CMD:
+            return True
+        v = sp.v(e, st) if isinstance(e, ast.Name) else None
+        return isinstance(v, tuple) and len(v) == 2 and v[0] == "blk"
 
     if is_blocking(expr):
         return ("Btruthy", True)
+    if isinstance(expr, ast.Call) and isinstance(expr.func, ast.Name) and expr.func.id == "bool" and len(expr.args) == 1 and is_blocking(expr.args[0]):
+        return ("Btruthy", True)
     cp = compare_pair(expr, (ast.Is, ast.IsNot, ast.Eq, ast.NotEq))
-    if cp and is_blocking(cp[0]) and isinstance(cp[1], ast.Constant) and isinstance(cp[1].value, bool):
-        pos = isinstance(cp[2], (ast.Is, ast.Eq))
-        return ("Btrue" if cp[1].value else "Bfalse", pos)
-    if any(is_blocking(n) for n in ast.walk(expr)):
+    if cp:
+        l, r = cp[0], cp[1]
+        if isinstance(l, ast.Constant) and not isinstance(r, ast.Constant):
+            l, r = r, l
+        if is_blocking(l) and isinstance(r, ast.Constant) and isinstance(r.value, bool):
+            pos = isinstance(cp[2], (ast.Is, ast.Eq))
+            return ("Btrue" if r.value else "Bfalse", pos)
+    if any(mentions(n) for n in ast.walk(expr)):
         raise AnalysisError(f"unmodelled test of command.blocking: {norm(expr)}")
     return None
 
 
 # ---------------------------------------------------------------------------------------------------
-# Layer.handle_event / __process / __continue
+# Layer.handle_event / command pump / resume-and-drain
 
 
-def _layer_spec(event_param, scenario, unroll=2):
+def _paused_content(trace):
+    """Abstract content of the paused attribute after ``trace``: ('rec', 0) the value at entry (None or a record: the scenario says which),
+    C(None) after a reset, ('recv', command, generator) after a record was stored, ('rec', k) unknown after the k-th event (a pump call
+    may or may not have paused again)."""
+    for i in range(len(trace) - 1, -1, -1):
+        t = trace[i]
+        if t[0] == "reset":
+            return C(None)
+        if t[0] == "setp":
+            return ("recv", t[1], t[2])
+        if t[0] == "process":
+            return ("rec", i + 1)
+    return ("rec", 0)
+
+
+def _layer_spec(roles, event_param, scenario, unroll=2):
+    rec_name = roles.rec_cls.name
+    scenario = dict(scenario)
+    scenario.setdefault("Pset", True)
+
+    def is_queue(e, st, sp):
+        return sp.v(e, st) == R(roles.QUEUE)
+
+    def rec_args(call, st, sp):
+        """(command value, generator value) of a record construction."""
+        vals = {}
+        for i, a in enumerate(call.args):
+            if isinstance(a, ast.Starred) or i >= len(roles.rec_fields):
+                return ("?", norm(call)), ("?",)
+            vals[roles.rec_fields[i]] = a
+        for k in call.keywords:
+            if k.arg is None:
+                return ("?", norm(call)), ("?",)
+            vals[k.arg] = k.value
+        c, g = vals.get(roles.cmd_field), vals.get(roles.gen_field)
+        return (sp.v(c, st) if c is not None else ("?",), sp.v(g, st) if g is not None else ("?",))
+
     def val(expr, st, sp):
         if isinstance(expr, ast.Call):
-            if is_self_call(expr, "_handle_event") and len(expr.args) == 1:
+            if is_self_call(expr, "_handle_event") and len(expr.args) == 1 and not expr.keywords:
                 return ("gen", sp.v(expr.args[0], st))
-            if method_call_on(expr, QUEUE) in ("popleft", "pop"):
+            if method_on(expr, lambda e: is_queue(e, st, sp)) in ("popleft", "pop"):
                 return ("deq",)
             if _advance(expr, st, sp):
                 return CMD
-        if attr_chain(expr) == "self._paused.generator":
-            return ("gen", ("paused",))
-        if isinstance(expr, ast.Attribute) and isinstance(expr.value, ast.Name):
-            base = st.get("0:" + expr.value.id)
-            if isinstance(base, tuple) and base and base[0] == "param":
-                return ("attr", base[1], expr.attr)
+            if last_attr(expr.func) == rec_name and not isinstance(expr.func, ast.Call):
+                c, g = rec_args(expr, st, sp)
+                return ("recv", c, g)
+            return None
+        if isinstance(expr, ast.Name) and expr.id == "self":
+            return ("self",)
+        if attr_chain(expr) == roles.PAUSED:
+            return _paused_content(st.trace)
+        if isinstance(expr, ast.Attribute):
+            base = sp.v(expr.value, st)
+            if isinstance(base, tuple) and base:
+                if base == ("rec", 0):
+                    if expr.attr == roles.gen_field:
+                        return ("gen", ("paused",))
+                    if expr.attr == roles.cmd_field:
+                        return ("awaited",)
+                elif base[0] == "recv":
+                    if expr.attr == roles.cmd_field:
+                        return base[1]
+                    if expr.attr == roles.gen_field:
+                        return base[2]
+                elif base[0] == "param":
+                    return ("attr", base[1], expr.attr)
+                elif base == CMD and expr.attr == "blocking":
+                    return ("blk", _n_setb(st.trace))
         return None
+
+    def pump_args(c, st, sp):
+        vals = {}
+        for i, a in enumerate(c.args):
+            if isinstance(a, ast.Starred) or i >= len(roles.pump_params):
+                return ("?",), ("?",)
+            vals[roles.pump_params[i]] = a
+        for k in c.keywords:
+            if k.arg is None:
+                return ("?",), ("?",)
+            vals[k.arg] = k.value
+        g, s = vals.get(roles.gen_param), vals.get(roles.send_param)
+        return (sp.v(g, st) if g is not None else ("?",), sp.v(s, st) if s is not None else C(None))
 
     def label(node, st, sp):
         out = []
-        for n in eval_order(node):
-            if isinstance(n, ast.Attribute) and attr_chain(n) == "self._paused.generator":
-                out.append(("readgen",))
-            elif isinstance(n, ast.Call):
-                m = method_call_on(n, QUEUE)
+        for n in _sub_exprs(node):
+            if isinstance(n, ast.Call):
+                m = method_on(n, lambda e: is_queue(e, st, sp))
                 if m == "popleft" and not n.args:
                     out.append(("deq", "front"))
+                    sp.deq_nodes.append(n)
                 elif m == "pop":
                     a = [x.value if isinstance(x, ast.Constant) else "?" for x in n.args]
+                    sp.deq_nodes.append(n)
                     if a == [0]:
                         out.append(("deq", "front"))
                     elif a in ([], [-1]):
@@ -152,57 +495,59 @@ def _layer_spec(event_param, scenario, unroll=2):
                 elif m:
                     out.append(("queue", m, tuple(sp.v(x, st) for x in n.args)))
                 elif is_self_call(n, "_handle_event"):
-                    out.append(("handle", sp.v(n.args[0], st) if len(n.args) == 1 else ("?",)))
-                elif is_self_call(n, "__process") or is_self_call(n, "__continue"):
+                    out.append(("handle", sp.v(n.args[0], st) if len(n.args) == 1 and not n.keywords else ("?",)))
+                elif is_self_call(n, roles.pump_name):
                     if not isinstance(getattr(n, "_parent", None), ast.YieldFrom):
                         raise AnalysisError(f"{norm(n)} is not driven by `yield from` (shape not modelled)")
+                elif roles.resolver(n) is not None:
+                    raise AnalysisError(f"{norm(n)}: a helper that touches the pause state is called in a position the path engine does not inline (shape not modelled)")
                 else:
                     adv = _advance(n, st, sp)
                     if adv:
                         out.append(("adv",) + adv)
             elif isinstance(n, ast.YieldFrom) and isinstance(n.value, ast.Call):
                 c = n.value
-                if is_self_call(c, "__continue"):
-                    out.append(("continue", sp.v(c.args[0], st) if len(c.args) == 1 else ("?",)))
-                elif is_self_call(c, "__process"):
-                    kw = {k.arg: k.value for k in c.keywords}
-                    g = c.args[0] if c.args else kw.get("command_generator")
-                    s = c.args[1] if len(c.args) > 1 else kw.get("send")
-                    out.append(("process", sp.v(g, st) if g is not None else ("?",), sp.v(s, st) if s is not None else C(None)))
-            elif isinstance(n, ast.Yield) and isinstance(n.value, ast.Name) and sp.v(n.value, st) == CMD:
+                if is_self_call(c, roles.pump_name):
+                    out.append(("process",) + pump_args(c, st, sp))
+            elif isinstance(n, ast.Yield) and n.value is not None and sp.v(n.value, st) == CMD:
                 out.append(("yield", "cmd"))
-        if isinstance(node, (ast.Assign, ast.AnnAssign, ast.AugAssign)):
-            targets = node.targets if isinstance(node, ast.Assign) else [node.target]
-            for t in targets:
-                if attr_chain(t) == "self._paused":
-                    v = node.value
-                    if isinstance(v, ast.Constant) and v.value is None:
-                        out.append(("reset",))
-                    elif isinstance(v, ast.Call) and last_attr(v.func) == "Paused":
-                        kw = {k.arg: k.value for k in v.keywords}
-                        a0 = v.args[0] if v.args else kw.get("command")
-                        a1 = v.args[1] if len(v.args) > 1 else kw.get("generator")
-                        out.append(("setp", sp.v(a0, st) if a0 is not None else ("?",), sp.v(a1, st) if a1 is not None else ("?",)))
-                    else:
-                        out.append(("setp", ("?", norm(v)), ("?",)))
-                elif isinstance(t, ast.Attribute) and t.attr == "blocking" and sp.v(t.value, st) == CMD:
-                    out.append(("setb", norm(node.value)))
+        for t, v in _assign_pairs(node):
+            if attr_chain(t) == roles.PAUSED:
+                vv = sp.v(v, st) if v is not None and not isinstance(node, ast.AugAssign) else None
+                if vv == C(None):
+                    out.append(("reset",))
+                elif isinstance(vv, tuple) and vv and vv[0] == "recv":
+                    out.append(("setp", vv[1], vv[2]))
+                else:
+                    out.append(("setp", ("?", norm(v) if v is not None else norm(node)), ("?",)))
+            elif isinstance(t, ast.Attribute) and t.attr == "blocking" and sp.v(t.value, st) == CMD:
+                out.append(("setb", "self" if v is not None and sp.v(v, st) == ("self",) else norm(v if v is not None else node)))
+        if isinstance(node, ast.Delete) and any(attr_chain(t) == roles.PAUSED for t in node.targets):
+            out.append(("setp", ("?", norm(node)), ("?",)))
         return out
 
     def atom(expr, st, sp):
-        p = truthiness_atom(expr, "self._paused")
-        if p is not None:
-            return ("P", p)
-        q = truthiness_atom(expr, QUEUE)
+        cur = _paused_content(st.trace)
+
+        def is_cur(e):
+            return isinstance(e, (ast.Name, ast.Attribute)) and sp.v(e, st) == cur
+
+        if cur[0] in ("rec", "recv"):
+            p = truthiness_of(expr, is_cur)
+            if p is not None:
+                if cur[0] == "recv":
+                    return ("Pset", p)
+                return ("P" if cur == ("rec", 0) else "P+", p)
+        q = truthiness_of(expr, lambda e: isinstance(e, (ast.Name, ast.Attribute)) and is_queue(e, st, sp))
         if q is not None:
             return ("Q", q)
-        io = isinstance_of(expr)
-        if io and isinstance(io[0], ast.Name) and io[0].id == event_param and io[1] == ["CommandCompleted"]:
+        io = isinstance_names(expr)
+        if io and sp.v(io[0], st) == ("param", event_param) and io[1] == ["CommandCompleted"]:
             return ("I", True)
         cp = compare_pair(expr, (ast.Is, ast.IsNot, ast.Eq, ast.NotEq))
         if cp:
             vals = {sp.v(cp[0], st), sp.v(cp[1], st)}
-            if vals == {("attr", event_param, "command"), R("self._paused.command")}:
+            if vals == {("attr", event_param, "command"), ("awaited",)}:
                 if sp.scenario.get("I") is False:
                     sp.problems.append(f"`{norm(expr)}` is evaluated for an event that is not a CommandCompleted (no .command attribute)")
                 ident = isinstance(cp[2], (ast.Is, ast.IsNot))
@@ -211,14 +556,16 @@ def _layer_spec(event_param, scenario, unroll=2):
 
     def raises(stmt, st, sp):
         for n in ast.walk(stmt):
-            if isinstance(n, ast.Call) and _advance(n, st, sp):
+            if isinstance(n, ast.Call) and (_advance(n, st, sp) or roles.may_stop(_self_callee(n))):
                 return ["StopIteration"]
         return []
 
-    return ASpec(label=label, atom=atom, scenario=scenario, val=val, raises=raises, unroll=unroll)
+    sp = LSpec(label=label, atom=atom, scenario=scenario, val=val, raises=raises, resolver=roles.resolver, unroll=unroll, max_depth=5)
+    sp.deq_nodes = []
+    return sp
 
 
-PUMP = ("adv", "yield", "setb", "setp", "reset", "caught", "process", "handle", "queue", "deq", "continue")
+PUMP = ("adv", "yield", "setb", "setp", "reset", "caught", "process", "handle", "queue", "deq")
 
 
 def _canon(tokens):
@@ -237,7 +584,7 @@ def _pump_ok(tokens, bval, gen, send0):
     stop = ("caught", "StopIteration")
     toks = list(tokens)
     if toks == [("process", gen, send0)]:
-        return None  # delegates to __process (checked on its own)
+        return None  # delegates to the pump function (checked on its own)
     i = 0
     first = True
     while True:
@@ -268,14 +615,19 @@ def _pump_ok(tokens, bval, gen, send0):
         i += 1
 
 
-def _check_pump(ctx, rule, where, name, stmts, bindings, gen, send0, strip_handle=None):
+def _run(stmts, sp, bindings):
+    b = dict(bindings)
+    return run_block(stmts, sp, b, depth_aware=True)
+
+
+def _check_pump(ctx, roles, rule, where, name, stmts, bindings, gen, send0, strip_handle=None):
     """Run the pump language check for the three blocking values. Returns {bval: set(canonical traces)}."""
     sets = {}
     for bval, sc in BLOCKING_VALUES.items():
         scenario = dict(sc)
         scenario["P"] = False
-        sp = _layer_spec(strip_handle or "event", scenario)
-        traces, eng = run_block(stmts, sp, bindings)
+        sp = _layer_spec(roles, strip_handle or "event", scenario)
+        traces, eng = _run(stmts, sp, bindings)
         ctx.paths += len(traces)
         ctx.require(traces, f"{name}: no terminating path for blocking={bval}")
         got = set()
@@ -284,7 +636,7 @@ def _check_pump(ctx, rule, where, name, stmts, bindings, gen, send0, strip_handl
             toks = proj(tr, PUMP)
             if strip_handle is not None:
                 hs = [t for t in toks if t[0] == "handle"]
-                other = [t for t in toks if t[0] in ("queue", "deq", "continue", "reset")]
+                other = [t for t in toks if t[0] in ("queue", "deq", "reset")]
                 if hs != [("handle", ("param", strip_handle))] or toks[0] != hs[0] or other:
                     ctx.fail("R04.1", where, "paused=False", f"an event arriving while not paused must be passed to _handle_event exactly once and nothing else; trace: {show(toks)}")
                     continue
@@ -304,28 +656,46 @@ def _check_pump(ctx, rule, where, name, stmts, bindings, gen, send0, strip_handl
 
 
 def _layer_core(ctx):
+    roles = _layer_roles(ctx)
     he = ctx.func(F, "Layer.handle_event")
-    pr = ctx.func(F, "Layer.__process")
-    co = ctx.func(F, "Layer.__continue")
+    pr = roles.pump
+    pname = roles.pump_name
     ev = params_of(he)
     ctx.require(len(ev) == 1, "Layer.handle_event no longer takes exactly one event parameter")
     ev = ev[0]
     where = (F, "Layer.handle_event", he)
+    KIND = PUMP + ("cond",)
 
-    # ---- R04.1 paused rows
-    rows = 0
+    def with_conds(tr):
+        out = []
+        for t in proj(tr, KIND):
+            if t[0] == "cond":
+                if t[1] in ("P", "P+"):
+                    out.append(("cond", "P", t[2]))
+                elif t[1] == "Q":
+                    out.append(t)
+            else:
+                out.append(t)
+        return out
+
+    # ---- R04.1 paused rows; the row of the awaited completion is at the same time the resume-and-drain sequence of R04.2
+    n_deq = 0
+    deq_nodes = []
+    r2_problems = {}
+    r2_paths = 0
+    r2_seen = False
     for I in (True, False):
         for S in (True, False):
             scenario = {"P": True, "I": I, "S": S}
             if S:
                 scenario["Seq"] = True
-            sp = _layer_spec(ev, scenario)
-            traces, _ = run_block(he.body, sp, {ev: ("param", ev)})
+            sp = _layer_spec(roles, ev, scenario)
+            traces, _ = _run(he.body, sp, {ev: ("param", ev)})
             ctx.paths += len(traces)
             ctx.cells += 1
             ctx.require(traces, "Layer.handle_event: no terminating path in a paused scenario")
             resume = I and S
-            want = (("continue", ("param", ev)),) if resume else (("queue", "append", (("param", ev),)),)
+            want = (("queue", "append", (("param", ev),)),)
             cons = f"paused=True completion={I} own_command={S}"
             ok = True
             if not (I is False and S is True):  # own_command is meaningless for non-completions; the table row is still evaluated
@@ -334,81 +704,94 @@ def _layer_core(ctx):
                     ctx.fail("R04.1", where, "completion test order", p)
             for tr, how, _ in traces:
                 toks = proj(tr, PUMP)
-                if how != "return" or toks != want:
+                if resume:
+                    kinds = {t[0] for t in toks}
+                    if "queue" in kinds or not (kinds & {"reset", "process", "deq", "handle", "adv"}):
+                        ok = False
+                        ctx.fail("R04.1", where, cons, f"the awaited completion does not (only) resume the paused generator; trace: {show(toks)} ({how})")
+                        break
+                    r2_seen = True
+                    r2_paths += 1
+                    ctoks = with_conds(tr)
+                    why = _continue_ok(ctoks, ev) if how == "return" else ("resume", f"path ends with {how}")
+                    n_deq = max(n_deq, sum(1 for t in toks if t[0] == "deq"))
+                    if why:
+                        r2_problems.setdefault(why[0], (why[1], ctoks))
+                elif how != "return" or toks != want:
                     ok = False
-                    if resume:
-                        why = "the awaited completion does not (only) resume the paused generator"
-                    elif any(t[0] in ("continue", "handle", "adv", "process") for t in toks):
+                    if any(t[0] in ("handle", "adv", "process", "reset", "deq") for t in toks):
                         why = "an event other than the awaited completion is handled / resumes the generator while the layer is blocked"
                     else:
                         why = "an event arriving while blocked is not appended (once, at the back) to the paused-event queue"
                     ctx.fail("R04.1", where, cons, f"{why}; trace: {show(toks)} ({how})")
                     break
+            if resume:
+                deq_nodes = list(sp.deq_nodes)
             if ok:
-                ctx.ok("R04.1", f"{cons}: {show(want)} on {len(traces)} paths")
-                rows += 1
+                ctx.ok("R04.1", f"{cons}: {'resume-and-drain sequence (R04.2)' if resume else show(want)} on {len(traces)} paths")
 
     # ---- R04.1 not-paused row + R04.3 pump language of the inlined copy
-    inl = _check_pump(ctx, "R04.3", where, "handle_event(not paused)", he.body, {ev: ("param", ev)}, ("gen", ("param", ev)), C(None), strip_handle=ev)
+    inl = _check_pump(ctx, roles, "R04.3", where, "handle_event(not paused)", he.body, {ev: ("param", ev)}, ("gen", ("param", ev)), C(None), strip_handle=ev)
     if not any(f.rule == "R04.1" and f.construct == "paused=False" for f in ctx.findings):
         ctx.ok("R04.1", "paused=False: exactly one _handle_event(event), generator driven, no queue operation")
     ctx.cells += 1
 
-    # ---- R04.3 __process
-    pp = params_of(pr)
-    ctx.require(len(pp) == 2, "Layer.__process no longer has the (command_generator, send) signature")
-    wherep = (F, "Layer.__process", pr)
-    prs = _check_pump(ctx, "R04.3", wherep, "__process", pr.body, {pp[0]: ("gen", ("arg",)), pp[1]: ("send0",)}, ("gen", ("arg",)), ("send0",))
-    dflt = pr.args.defaults
-    ctx.check(len(dflt) == 1 and isinstance(dflt[0], ast.Constant) and dflt[0].value is None, "R04.3", wherep, "send default",
-              "__process' send parameter must default to None (a fresh generator can only be sent None)", desc="__process(send=None) default")
+    # ---- R04.3 the pump function
+    gp, spn = roles.gen_param, roles.send_param
+    wherep = (F, f"Layer.{pname}", pr)
+    prs = _check_pump(ctx, roles, "R04.3", wherep, pname, pr.body, {gp: ("gen", ("arg",)), spn: ("send0",)}, ("gen", ("arg",)), ("send0",))
+    dmap = {}
+    allp = [a.arg for a in pr.args.posonlyargs + pr.args.args]
+    for p, d in zip(allp[len(allp) - len(pr.args.defaults):], pr.args.defaults):
+        dmap[p] = d
+    for a, d in zip(pr.args.kwonlyargs, pr.args.kw_defaults):
+        if d is not None:
+            dmap[a.arg] = d
+    d = dmap.get(spn)
+    ctx.check(isinstance(d, ast.Constant) and d.value is None and gp not in dmap, "R04.3", wherep, "send default",
+              f"{pname}'s send parameter must default to None (a fresh generator can only be sent None)", desc=f"{pname}(send=None) default")
 
     # ---- R04.4 sibling agreement (trace sets, generator origin abstracted, send=None)
     delegated = all(s == {(("process", "G", C(None)),)} for s in inl.values())
     if delegated:
         for bval in BLOCKING_VALUES:
-            ctx.ok("R04.4", f"handle_event delegates to __process (no inlined copy), blocking={bval}")
+            ctx.ok("R04.4", f"handle_event delegates to {pname} (no inlined copy), blocking={bval}")
     else:
         for bval, sc in BLOCKING_VALUES.items():
             scenario = dict(sc)
-            sp = _layer_spec("event", scenario)
-            traces, _ = run_block(pr.body, sp, {pp[0]: ("gen", ("arg",)), pp[1]: C(None)})
+            sp = _layer_spec(roles, "event", scenario)
+            traces, _ = _run(pr.body, sp, {gp: ("gen", ("arg",)), spn: C(None)})
             ref = {_canon(proj(tr, PUMP)) for tr, how, _ in traces}
             a, b = inl[bval], ref
             ctx.check(a == b, "R04.4", where, f"inlined copy of __process, blocking={bval}",
-                      f"the inlined copy and __process differ: only inlined {sorted(map(show, a - b))[:2]}, only __process {sorted(map(show, b - a))[:2]}",
-                      desc=f"inlined copy == __process(gen, None) for blocking={bval}: {len(a)} projected traces")
+                      f"the inlined copy and {pname} differ: only inlined {sorted(map(show, a - b))[:2]}, only {pname} {sorted(map(show, b - a))[:2]}",
+                      desc=f"inlined copy == {pname}(gen, None) for blocking={bval}: {len(a)} projected traces")
 
-    # ---- R04.2 __continue
-    cp = params_of(co)
-    ctx.require(len(cp) == 1, "Layer.__continue no longer takes exactly one event parameter")
-    cev = cp[0]
-    wherec = (F, "Layer.__continue", co)
-    sp = _layer_spec(cev, {})
-    traces, _ = run_block(co.body, sp, {cev: ("param", cev)})
-    ctx.paths += len(traces)
-    ctx.require(traces, "Layer.__continue: no terminating path")
-    KIND = PUMP + ("cond", "readgen")
-    n_deq = 0
-    problems = {}
-    for tr, how, _ in traces:
-        toks = [t for t in proj(tr, KIND) if t[0] != "cond" or t[1] in ("P", "Q")]
-        why = _continue_ok(toks, cev) if how == "return" else f"path ends with {how}"
-        n_deq = max(n_deq, sum(1 for t in toks if t[0] == "deq"))
-        if why:
-            problems.setdefault(why[0], (why[1], toks))
-    for cons, (why, toks) in problems.items():
-        ctx.fail("R04.2", wherec, cons, f"{why}; trace: {show(toks)}")
-    if not problems:
-        ctx.ok("R04.2", f"__continue: {len(traces)} paths: read generator, reset, resume with event.reply, guarded FIFO drain (up to {n_deq} dequeues per path)")
-    deqs = [n for n in walk_in_order(co) if isinstance(n, ast.Call) and method_call_on(n, QUEUE) in ("popleft", "pop")]
-    for d in deqs:
-        p = d
-        while p is not None and not isinstance(p, (ast.While, ast.For, ast.FunctionDef)):
+    # ---- R04.2 resume-and-drain (the traces of the awaited-completion row, helpers inlined wherever the code lives)
+    def owner(n):
+        p = n
+        while p is not None and not isinstance(p, (ast.FunctionDef, ast.AsyncFunctionDef)):
             p = getattr(p, "_parent", None)
-        ctx.check(isinstance(p, ast.While), "R04.2", wherec, "drain loop", "queued events are not drained by a `while` loop that re-evaluates its guard after every event "
-                  "(remaining events would stay queued although the layer is not blocked)", desc="dequeue sits in a while loop")
-    ctx.require(n_deq >= 2 or any(f.rule == "R04.2" for f in ctx.findings), "Layer.__continue: the drain loop was not explored for two iterations")
+        return p
+
+    co = owner(deq_nodes[0]) if deq_nodes else he
+    wherec = (F, f"Layer.{co.name}", co)
+    if r2_seen:
+        for cons, (why, toks) in r2_problems.items():
+            ctx.fail("R04.2", wherec, cons, f"{why}; trace: {show(toks)}")
+        if not r2_problems:
+            ctx.ok("R04.2", f"resume-and-drain ({co.name}): {r2_paths} paths: reset, resume the stored generator with event.reply, guarded FIFO drain (up to {n_deq} dequeues per path)")
+        seen = set()
+        for dq in deq_nodes:
+            if id(dq) in seen:
+                continue
+            seen.add(id(dq))
+            p = dq
+            while p is not None and not isinstance(p, (ast.While, ast.For, ast.FunctionDef, ast.AsyncFunctionDef)):
+                p = getattr(p, "_parent", None)
+            ctx.check(isinstance(p, ast.While), "R04.2", wherec, "drain loop", "queued events are not drained by a `while` loop that re-evaluates its guard after every event "
+                      "(remaining events would stay queued although the layer is not blocked)", desc="dequeue sits in a while loop")
+        ctx.require(n_deq >= 2 or any(f.rule == "R04.2" for f in ctx.findings), f"Layer.{co.name}: the drain loop was not explored for two iterations")
     ctx.expect_instances("R04.1", 5)
     ctx.expect_instances("R04.2", 2)
     ctx.expect_instances("R04.3", 7)
@@ -416,20 +799,20 @@ def _layer_core(ctx):
 
 
 def _continue_ok(toks, ev):
-    """-> (construct, reason) | None"""
+    """Resume-and-drain language over one projected trace -> (construct, reason) | None"""
     kinds = [t[0] for t in toks]
     if "process" not in kinds:
         return ("resume", "the paused generator is never resumed")
     fp = kinds.index("process")
     pre = toks[:fp]
     prek = [t[0] for t in pre]
-    if any(k in ("handle", "deq", "adv", "continue", "queue", "setp") for k in prek):
+    if any(k in ("handle", "deq", "adv", "queue", "setp") for k in prek):
         return ("resume", "something is handled before the paused generator is resumed")
     if prek.count("reset") != 1:
         return ("reset before resume", "self._paused is not reset to None (exactly once) before the generator is resumed - a pause set while resuming would be lost / the layer stays blocked")
-    if "readgen" not in prek or prek.index("readgen") > prek.index("reset"):
-        return ("reset before resume", "the paused generator is not read from self._paused before self._paused is reset")
     if toks[fp] != ("process", ("gen", ("paused",)), ("attr", ev, "reply")):
+        if toks[fp][1] != ("gen", ("paused",)):
+            return ("reset before resume", f"the generator that is resumed is not the one stored in self._paused when the completion arrived (read before the reset); saw {toks[fp][1]}")
         return ("resume value", f"the paused generator must be resumed with exactly event.reply (saw {toks[fp]})")
     i = fp + 1
     seenP = seenQ = None
@@ -460,11 +843,51 @@ def _continue_ok(toks, ev):
             i = j
             seenP = seenQ = None
             continue
-        if t[0] == "readgen":
-            i += 1
-            continue
         return ("drain", f"unexpected effect in the drain phase: {t}")
     return None
+
+
+def _helper_resolver(ctx, rel, cls, opaque, touches):
+    """Resolver that inlines ``self.<m>(...)`` for every method m of class ``cls`` (own body) that - transitively through other such helpers -
+    contains a node with ``touches(node)``; methods named in ``opaque`` are never inlined (they are summarised by the rule's own tokens).
+    An extracted helper is therefore analysed exactly like the statements it replaced, whatever it is called."""
+    methods = {st.name: st for st in ctx.model.cls(rel, cls).body if isinstance(st, (ast.FunctionDef, ast.AsyncFunctionDef))}
+    memo = {}
+
+    def relevant(name):
+        if name in memo:
+            return memo[name]
+        memo[name] = False
+        res = False
+        for n in _own_nodes(methods[name]):
+            if touches(n):
+                res = True
+            elif isinstance(n, ast.Call):
+                c = _self_callee(n)
+                if c in methods and c not in opaque and c != name and relevant(c):
+                    res = True
+            if res:
+                break
+        memo[name] = res
+        return res
+
+    def resolver(call):
+        c = _self_callee(call)
+        if c and c in methods and c not in opaque and relevant(c):
+            for a in list(call.args) + [k.value for k in call.keywords]:
+                if any(isinstance(x, (ast.Call, ast.Yield, ast.YieldFrom, ast.Await, ast.NamedExpr)) for x in ast.walk(a)):
+                    raise AnalysisError(f"{norm(call)}: helper argument with a call / yield inside (effects of arguments of inlined helpers are not modelled)")
+            return methods[c]
+        return None
+
+    return resolver
+
+
+def _uninlined_guard(resolver, node):
+    """A helper the rule would have to look into, called where the path engine does not inline calls (nested in an expression)."""
+    for n in ast.walk(node):
+        if isinstance(n, ast.Call) and resolver(n) is not None:
+            raise AnalysisError(f"{norm(n)}: a helper that touches the analysed state is called in a position the path engine does not inline (shape not modelled)")
 
 
 # ---------------------------------------------------------------------------------------------------
@@ -511,14 +934,17 @@ def _router(ctx, rel, cls):
             for n in ast.walk(st):
                 if isinstance(n, ast.Call) and method_call_on(n, "self.command_sources") == "pop" and n.args and isinstance(n.args[0], ast.Name) and n.args[0].id == p0:
                     consumers.add(st.name)
+    opaque = set(consumers) | {"event_to_child", "_handle_event", "handle_event", "__init__"}
+    resolver = _helper_resolver(ctx, rel, cls, opaque, lambda n: isinstance(n, ast.Attribute) and attr_chain(n) == "self.command_sources")
 
     def val(expr, st, sp):
         return None
 
     def label(node, st, sp):
         out = []
-        for n in eval_order(node):
-            if isinstance(n, ast.Yield) and isinstance(n.value, ast.Name) and sp.v(n.value, st) == CMD:
+        _uninlined_guard(resolver, node)
+        for n in _sub_exprs(node):
+            if isinstance(n, ast.Yield) and n.value is not None and sp.v(n.value, st) == CMD:
                 out.append(("yield", "cmd"))
             elif isinstance(n, ast.YieldFrom) and isinstance(n.value, ast.Call):
                 c = n.value
@@ -543,8 +969,8 @@ def _router(ctx, rel, cls):
         for W in (False, True):
             scenario = dict(sc)
             scenario["W"] = W
-            sp = ASpec(label=label, atom=atom, scenario=scenario, val=val, unroll=1)
-            traces, _ = run_block(loop.body, sp, {cmdvar: CMD, child_p: ("param", child_p)})
+            sp = LSpec(label=label, atom=atom, scenario=scenario, val=val, unroll=1, resolver=resolver, max_depth=4)
+            traces, _ = run_block(loop.body, sp, {cmdvar: CMD, child_p: ("param", child_p)}, depth_aware=True)
             ctx.paths += len(traces)
             ctx.cells += 1
             if bval == "False" and not W:
@@ -582,24 +1008,25 @@ def _router(ctx, rel, cls):
         if isinstance(expr, ast.Subscript) and attr_chain(expr.value) == "self.command_sources":
             return ("src", sp.v(expr.slice, st))
         if isinstance(expr, ast.Attribute) and isinstance(expr.value, ast.Name):
-            base = st.get("0:" + expr.value.id)
+            base = sp.v(expr.value, st)
             if isinstance(base, tuple) and base and base[0] == "param":
                 return ("attr", base[1], expr.attr)
         return None
 
     def label2(node, st, sp):
         out = []
-        for n in eval_order(node):
+        _uninlined_guard(resolver, node)
+        for n in _sub_exprs(node):
             if isinstance(n, ast.Call) and is_self_call(n, "event_to_child"):
                 out.append(("route", sp.v(n.args[0], st) if n.args else ("?",), sp.v(n.args[1], st) if len(n.args) > 1 else ("?",)))
             elif isinstance(n, (ast.Yield, ast.YieldFrom)) and not (isinstance(n.value, ast.Call) and is_self_call(n.value, "event_to_child")):
                 out.append(("other", norm(n)))
         return out
 
-    class CC(ASpec):
+    class CC(LSpec):
         def decide_leaf(self, cond, st, depth):
             io = isinstance_of(cond)
-            if io and isinstance(io[0], ast.Name) and io[0].id == ep:
+            if io and isinstance(io[0], ast.Name) and self.v(io[0], st) == ("param", ep):
                 t = cond.args[1]
                 exprs = list(t.elts) if isinstance(t, ast.Tuple) else [t]
                 res = False
@@ -610,10 +1037,10 @@ def _router(ctx, rel, cls):
                     if anc is None or "CommandCompleted" in anc:
                         res = None  # unresolved or a subclass of CommandCompleted: may or may not match
                 return res
-            return ASpec.decide_leaf(self, cond, st, depth)
+            return LSpec.decide_leaf(self, cond, st, depth)
 
-    sp = CC(label=label2, val=val2, unroll=1)
-    traces, _ = run_block(he.body, sp, {ep: ("param", ep)})
+    sp = CC(label=label2, val=val2, unroll=1, resolver=resolver, max_depth=4)
+    traces, _ = run_block(he.body, sp, {ep: ("param", ep)}, depth_aware=True)
     ctx.paths += len(traces)
     whereh = (rel, f"{cls}._handle_event", he)
     want = (("route", ("src", ("attr", ep, "command")), ("param", ep)),)
@@ -652,12 +1079,14 @@ def _iter_kind(it, chain):
     return None
 
 
-def _replay_spec(chain, is_replay_call, extra_label=None, atom=None, scenario=None):
+def _replay_spec(chain, is_replay_call, extra_label=None, atom=None, scenario=None, resolver=None):
     """Alphabet: ('loop', 'fwd'|'rev', entered) ('replay', 'loopvar'|text) ('mut', how) + extra."""
 
     def label(node, st, sp):
         out = []
-        for n in eval_order(node):
+        if resolver is not None:
+            _uninlined_guard(resolver, node)
+        for n in _sub_exprs(node):
             if isinstance(n, ast.Call):
                 m = method_call_on(n, chain)
                 if m in ("clear", "pop", "remove", "reverse", "sort", "insert", "popleft"):
@@ -685,12 +1114,12 @@ def _replay_spec(chain, is_replay_call, extra_label=None, atom=None, scenario=No
             out.extend(extra_label(node, st, sp))
         return out
 
-    class RS(ASpec):
+    class RS(LSpec):
         def loop_event(self, node, entered, st):
             k = _iter_kind(node.iter, chain)
             return ("loop", k, entered) if k else None
 
-    return RS(label=label, atom=atom, scenario=scenario, unroll=2)
+    return RS(label=label, atom=atom, scenario=scenario, unroll=2, resolver=resolver, max_depth=4)
 
 
 def _replay_ok(toks, need_loop=True):
@@ -722,16 +1151,25 @@ def _nextlayer(ctx):
     ctx.require(len(ep) == 1, "NextLayer._handle_event no longer takes exactly one event parameter")
     ep = ep[0]
 
+    def touches(n):
+        if not isinstance(n, ast.Attribute):
+            return False
+        ch = attr_chain(n)
+        return ch in ("self.events", "self.layer.handle_event") or (ch in ("self._handle_event", "self.handle_event", "self._handle") and isinstance(n.ctx, ast.Store))
+
+    resolver = _helper_resolver(ctx, F, "NextLayer", {"_ask", "_handle_event", "handle_event", "__init__"}, touches)
+
     def label(node, st, sp):
         out = []
-        for n in eval_order(node):
+        _uninlined_guard(resolver, node)
+        for n in _sub_exprs(node):
             if isinstance(n, ast.Call) and method_call_on(n, "self.events") == "append":
                 out.append(("buffer", sp.v(n.args[0], st) if len(n.args) == 1 else ("?",)))
             elif isinstance(n, (ast.Yield, ast.YieldFrom)):
                 out.append(("emit",))
         return out
 
-    traces, _ = run_block(he.body, ASpec(label=label, unroll=1), {ep: ("param", ep)})
+    traces, _ = run_block(he.body, LSpec(label=label, unroll=1, resolver=resolver, max_depth=4), {ep: ("param", ep)}, depth_aware=True)
     ctx.paths += len(traces)
     ctx.require(traces, "NextLayer._handle_event: no path")
     bad = [tr for tr, how, _ in traces if not tr or tr[0] != ("buffer", ("param", ep)) or sum(1 for t in tr if t[0] == "buffer") != 1]
@@ -747,7 +1185,8 @@ def _nextlayer(ctx):
         if isinstance(node, ast.Assign):
             for t in node.targets:
                 if attr_chain(t) in ("self._handle_event", "self.handle_event", "self._handle"):
-                    out.append(("rebind", attr_chain(t), attr_chain(node.value)))
+                    v = sp.v(node.value, st)
+                    out.append(("rebind", attr_chain(t), v[1] if isinstance(v, tuple) and len(v) == 2 and v[0] == "r" else (attr_chain(node.value) or "?")))
         return out
 
     def atom(expr, st, sp):
@@ -756,13 +1195,15 @@ def _nextlayer(ctx):
 
     wa = (F, "NextLayer._ask", ask)
     for L in (True, False):
-        sp = _replay_spec("self.events", is_replay, extra, atom, {"L": L})
-        traces, _ = run_block(ask.body, sp)
+        sp = _replay_spec("self.events", is_replay, extra, atom, {"L": L}, resolver=resolver)
+        traces, _ = run_block(ask.body, sp, depth_aware=True)
         ctx.paths += len(traces)
         ctx.require(traces, "NextLayer._ask: no path")
         prob = {}
         for tr, how, _ in traces:
             toks = proj(tr, ("loop", "replay", "mut", "rebind", "append"))
+            if ("rebind", "self._handle_event", "?") in toks:
+                raise AnalysisError("NextLayer._ask: self._handle_event is rebound to a value the rule cannot evaluate (shape not modelled)")
             if L:
                 why = _replay_ok(toks)
                 if not why and ("rebind", "self._handle_event", "self.layer.handle_event") not in toks:
@@ -786,6 +1227,10 @@ def _tunnel(ctx):
     ep = params_of(etc)
     ctx.require(len(ep) == 1, "TunnelLayer.event_to_child no longer takes exactly one event parameter")
     ep = ep[0]
+    topaque = {"event_to_child", "_handshake_finished", "_handle_event", "handle_event", "__init__"}
+    res_etc = _helper_resolver(ctx, TUN, "TunnelLayer", topaque, lambda n: isinstance(n, ast.Attribute) and attr_chain(n) in ("self._event_queue", "self.child_layer.handle_event"))
+    res_hf = _helper_resolver(ctx, TUN, "TunnelLayer", topaque, lambda n: isinstance(n, ast.Attribute) and (
+        attr_chain(n) == "self._event_queue" or (attr_chain(n) == "self.tunnel_state" and isinstance(n.ctx, ast.Store))))
 
     def atom(expr, st, sp):
         cp = compare_pair(expr, (ast.Is, ast.IsNot, ast.Eq, ast.NotEq))
@@ -801,7 +1246,8 @@ def _tunnel(ctx):
 
     def label(node, st, sp):
         out = []
-        for n in eval_order(node):
+        _uninlined_guard(res_etc, node)
+        for n in _sub_exprs(node):
             if isinstance(n, ast.Call):
                 if method_call_on(n, "self._event_queue"):
                     out.append(("enqueue", method_call_on(n, "self._event_queue"), sp.v(n.args[0], st) if len(n.args) == 1 else ("?",)))
@@ -815,7 +1261,7 @@ def _tunnel(ctx):
             sc = {"E": E, "R": Rr}
             if E:
                 sc["notE"] = True
-            traces, _ = run_block(etc.body, ASpec(label=label, atom=atom, scenario=sc, unroll=1), {ep: ("param", ep)})
+            traces, _ = run_block(etc.body, LSpec(label=label, atom=atom, scenario=sc, unroll=1, resolver=res_etc, max_depth=4), {ep: ("param", ep)}, depth_aware=True)
             ctx.paths += len(traces)
             ctx.cells += 1
             ctx.require(traces, "TunnelLayer.event_to_child: no path")
@@ -833,11 +1279,13 @@ def _tunnel(ctx):
         if isinstance(node, ast.Assign):
             for t in node.targets:
                 if attr_chain(t) == "self.tunnel_state":
+                    if not attr_chain(node.value).startswith("TunnelState."):
+                        raise AnalysisError(f"TunnelLayer._handshake_finished: tunnel_state is set to {norm(node.value)}, not to a TunnelState member (shape not modelled)")
                     out.append(("state", attr_chain(node.value)))
         return out
 
-    sp = _replay_spec("self._event_queue", is_replay, extra, atom, {"R": False})
-    traces, _ = run_block(hf.body, sp)
+    sp = _replay_spec("self._event_queue", is_replay, extra, atom, {"R": False}, resolver=res_hf)
+    traces, _ = run_block(hf.body, sp, depth_aware=True)
     ctx.paths += len(traces)
     ctx.require(traces, "TunnelLayer._handshake_finished: no path")
     wh = (TUN, "TunnelLayer._handshake_finished", hf)
